@@ -79,3 +79,6 @@ PARTIAL += [
     "C11_same_units_any_signature_partial proves the statement of C11_same_units_any_signature_full (a `def … : Prop` in "
     "Props/C08Stream.lean) for ASCII text only — the characters CIF syntax itself consists of; non-ASCII scalar values are missing",
 ]
+
+# ---- independent review rA (notes/review/rA-review.md) ----
+LEAN_MODULES += ["CifModel.Props.ReviewRC11"]
